@@ -1,4 +1,4 @@
 package harness
 
-func (env *Env) setupProm() error                          { return nil }
-func (te *taskEnv) execProm(op *Op, rec *OpRec) bool       { return false }
+func (env *Env) setupProm() error                    { return nil }
+func (te *taskEnv) execProm(op *Op, rec *OpRec) bool { return false }
